@@ -149,6 +149,18 @@ def r07d(ctx, repo):
             guarded = any(pol and ast.unparse(t) == "%s > 0" % dn for t, pol in guards_of(d))
             ctx.check(masked or guarded, "R07d", fi, d, "division only where the denominator is positive", "`%s` divides by the denominator where it may be zero or negative" % norm(d))
         keysets.append({ast.unparse(n.slice) for n in own_nodes(fi.node) if isinstance(n, ast.Subscript) and astq.is_name(n.value, "model_settings")})
+        # the "numerator is zero" test looks at the numerator (people), never at the quotient: no division of the tested variable can precede it
+        cfg = K.cfg(repo, fi)
+        tests = [c for c in own_nodes(fi.node) if isinstance(c, ast.Compare) and any(isinstance(x, ast.Subscript) and astq.is_name(x.value, "model_settings") for x in ast.walk(c))]
+        ctx.require(tests, "R07d: %s: comparison with the tolerance not found" % fi.fq)
+        for c in tests:
+            tested = ast.unparse(astq.strip_subs(c.left))
+            st = enclosing_stmt(c)
+            for d in divs:
+                if ast.unparse(astq.strip_subs(d.target)) != tested:
+                    continue
+                reach = cfg.path_exists(cfg.ids(d), cfg.ids(st))
+                ctx.check(not reach, "R07d", fi, st, "`%s` tests the numerator (no division of `%s` can precede it)" % (ast.unparse(c), tested), "`%s` can run after `%s`: the zero test is applied to the quotient, not to the number of people, so a characteristic whose numerator is at least the tolerance but whose ratio is below it is reported as exactly 0" % (ast.unparse(c), norm(d)))
     ctx.check(keysets[0] == keysets[1] and len(keysets[0]) == 1, "R07d", sites[1], sites[1].node, "both forms use the same tolerance key", "Characteristic.vals and .update use different tolerance settings %s / %s" % (sorted(keysets[0]), sorted(keysets[1])))
     ctx.note("R07d", "vector form zeroes any numerator below tolerance even over a positive denominator; scalar form only in the 0/0 case. Only the vector form is reported, so the difference is not alarmed.")
 
